@@ -401,8 +401,9 @@ Definition with_com (s : shared') (r : outcome comp_editor) : outcome shared' :=
 Definition conversion (s : shared') : list interval := conv (inner (com s)) (nth s).
 Definition display (s : shared') : list N := display_of (conversion s).
 
-(* CompositionEditor::clear as the source has it (cursor stack handling: see Composition.v) *)
-Definition ce_clear (e : comp_editor) : comp_editor := ce_clear_keep_stack e.
+(* CompositionEditor::clear as the source has it: composition, cursor AND the saved cursors
+   (fix cd71832; the pinned tree kept the stack: ce_clear_keep_stack, see Properties/C17.v) *)
+Definition ce_clear (e : comp_editor) : comp_editor := ce_clear_all e.
 
 (* ---- learning (estimate.rs, learn_phrase) ---- *)
 Definition U32_MAX : N := 4294967295%N.
